@@ -45,6 +45,7 @@ struct OsslCtxConfig {
     std::string psk_identity; Bytes psk_key; // TLS<=1.2 PSK suites (callbacks installed when psk_key non-empty)
     int dtls_mtu = 0;                        // DTLS: link MTU (0 = 1400)
     bool dtls_cookie = false;                // DTLS server: HelloVerifyRequest cookie exchange
+    bool allow_no_dhe_kex = false;           // SSL_OP_ALLOW_NO_DHE_KEX: TLS 1.3 client also offers / server also accepts the PSK-only mode psk_ke
 };
 
 // An OpenSSL session handle (SSL_SESSION with a reference), opaque here.
@@ -75,6 +76,11 @@ public:
     ~OsslConn();
     OsslConn(const OsslConn &) = delete;
     OsslConn &operator=(const OsslConn &) = delete;
+
+    // per-connection override of the context's group list (SSL_set1_groups_list); call before the handshake starts.
+    // An OpenSSL 3.0 server selects psk_ke only when resumption is possible, SSL_OP_ALLOW_NO_DHE_KEX is set, the client offered
+    // psk_ke and there is no (EC)DHE group in common, so "no common group on the resumed connection" is how psk_ke is forced.
+    bool set_groups(const std::string &list);
 
     // ---- transport: TLS = byte stream; DTLS = whole datagrams
     void feed(const uint8_t *d, size_t n);          // TLS: append bytes received from the peer
@@ -117,6 +123,10 @@ public:
     const std::string &hs_trace() const;
     int client_hellos() const;                      // number of ClientHello messages seen in either direction (2 = HelloRetryRequest or HelloVerifyRequest round)
     bool saw_hello_retry() const;                   // a ServerHello carrying the HelloRetryRequest random was seen
+    // TLS (not DTLS) hello observations, parsed from the handshake messages themselves:
+    int server_hello_key_share() const;             // last real (non-HRR) ServerHello: 1 = has key_share, 0 = has none (TLS 1.3: psk_ke), -1 = no ServerHello seen / unparsable
+    bool server_hello_pre_shared_key() const;       // last real ServerHello carries pre_shared_key
+    int client_hello_psk_modes() const;             // last ClientHello's psk_key_exchange_modes: bit 0 = psk_ke, bit 1 = psk_dhe_ke; 0 = extension absent
     // client: newest session usable for resumption (TLS 1.3: from NewSessionTicket), may be null
     OsslSessionPtr session() const;
     int tickets_received() const;                   // client: number of new-session callbacks
